@@ -192,9 +192,9 @@ class Types:
         if b in ('gsl_error_handler_t',):
             return 'void'
         if b in ('gsl_sf_result',):
-            return 'gsl_sf_result'
+            return 'bx_gsl_sf_result'
         if b in ('gsl_function', 'struct gsl_function_struct', 'gsl_function_struct'):
-            return 'gsl_function'
+            return 'bx_gsl_function'
         raise Unsupported('type ' + t)
 
     def decl(self, t, name):
@@ -1299,7 +1299,14 @@ class FuncRenderer:
         return E('member', a=e, name=name, extra=False)
 
     def e_InitListExpr(self, n):
-        return E('init', args=[self.expr(c) for c in inner(n)])
+        if 'array_filler' in n:
+            # clang prints [filler, elem0, elem1, ...]; remaining elements are value-initialised, as in C
+            elems = n['array_filler'][1:]
+            if n['array_filler'][0].get('kind') != 'ImplicitValueInitExpr':
+                raise Unsupported('array filler shape')
+        else:
+            elems = inner(n)
+        return E('init', args=[self.expr(c) for c in elems])
 
     def e_ImplicitValueInitExpr(self, n):
         return E('ilit', name='0')
@@ -1424,10 +1431,11 @@ class FuncRenderer:
             return E('call', a=fe, args=self.args_for(ptypes, args), extra={'indirect': True})
         if did in self.tu.cname and self.tu.decls.get(did, {}).get('kind') in ('FunctionDecl', 'CXXMethodDecl'):
             cn = self.tu.cname[did]
-            if name in EXTERNAL_PURE and cn == name:
-                pass
-            self.f.calls.add(cn)
             ptypes = self.param_types(fq)
+            if name in EXTERNAL_PURE and cn == name:
+                self.f.ext_calls.add(name)
+                return E('call', a=name, args=self.args_for(ptypes, args, did))
+            self.f.calls.add(cn)
             return E('call', a=E('fn', name=cn, extra='bx'), args=self.args_for(ptypes, args, did))
         # external function
         if name in LIBM:
